@@ -52,6 +52,10 @@ WORD_ORDER = [None, "VariablePrefix", "RawVariablePrefix", "MathPrefix", "SuperV
 
 META["explanation"] += " " + '(PR-chain) in the loop of renderIf over the cases of an <if>, every break/return is preceded in its own or an enclosing compound statement by an unconditional call of render(): a case that is false or has no value is passed over, nothing but a rendered case ends the walk.'
 
+META["explanation"] += " " + 'Taken over unchanged from other modules because a seeded change to this property was reported by them (rules.common.shared): FX-sink from C03; SB-loopitem/OUT-def from C01; PR-consumed from C04.'
+
+META["explanation"] += " " + 'Also taken over (a rule id already present here is kept as id/module): FLOW-key from C18.'
+
 def rule_patterns(ctx, m):
     r = Rule("TB-patterns", "pattern literals spell the documented tags and declared lengths equal literal lengths", floor=120)
     tps = tab.members(m, "Qentem::Tags::TPStrings_T")
@@ -156,7 +160,7 @@ def rule_words(ctx, m):
     return r
 
 
-def run(ctx):
+def _run_own(ctx):
     m = ctx.pattern()
     from rules.common import rule_narrow_units, rule_finder_all_words, rule_copy_kind
     rules = [rule_patterns(ctx, m), rule_words(ctx, m), rule_copy_kind(ctx, m),
@@ -510,3 +514,17 @@ def rule_child_flag(ctx, m, pf):
                  where[0] if isinstance(where, tuple) else where, fname, "true" if bad[2] else "false", "popped" if bad[3] < 0 else ("not popped" if bad[3] == 0 else "pushed once more"),
                  "the next literal `}` in the text pops the storage of an enclosing block" if bad[2] else "the closing `}` of the child tag is taken for text"), pf.loc(i))
     return r
+
+
+def run(ctx):
+    rules_ = list(_run_own(ctx) or [])
+    from rules.common import shared
+    have = set(r_.rid for r_ in rules_)
+    rules_ += [r_ for r_ in shared(ctx, 'C03', ['FX-sink']) if r_.rid not in have]
+    rules_ += [r_ for r_ in shared(ctx, 'C01', ['SB-loopitem', 'OUT-def']) if r_.rid not in have]
+    rules_ += [r_ for r_ in shared(ctx, 'C04', ['PR-consumed']) if r_.rid not in have]
+    for r_ in shared(ctx, 'C18', ['FLOW-key']):
+        if r_.rid in set(x.rid for x in rules_):
+            r_.rid = r_.rid + "/C18"
+        rules_.append(r_)
+    return rules_
